@@ -418,6 +418,21 @@ theorem ex_inv (h : certOK need G C = true) {b : Bool} {n F md n' F' md' : Nat} 
     obtain ⟨a, b', c'⟩ := ih rfl hks
     have hf := succ_fn hok hs
     exact ⟨a, by rw [b', hf], fun hpure => c' (by rw [hf]; exact hpure)⟩
+  | @modeTest n F md s n' F' md' k v eq hlt hop hg hs _ ih =>
+    intro _ hk
+    have hok := nodeOK_of_lt h hlt
+    obtain ⟨c, hc, hm, hh⟩ := hk
+    have hp := (nodeOK_parts hok).2.2.2 c hc
+    unfold caseOK at hp
+    rw [hop] at hp
+    simp only [] at hp
+    rw [hm, hg] at hp
+    simp only [Bool.not_true, Bool.false_or] at hp
+    rw [List.all_eq_true] at hp
+    have hks : inv (C.k s) md F := inv_of_cover (hp s hs) (fun g' hg' => holds_imp hh hg')
+    obtain ⟨a, b', c'⟩ := ih rfl hks
+    have hf := succ_fn hok hs
+    exact ⟨a, by rw [b', hf], fun hpure => c' (by rw [hf]; exact hpure)⟩
   | @havoc n F md F1 s n' F' md' hlt hop _ hs _ _ ih2 =>
     intro _ hk
     have hok := nodeOK_of_lt h hlt
@@ -556,6 +571,7 @@ theorem ex_mono {G : Graph} {b : Bool} {n F md n' F' md' : Nat} (hr : Ex G b n F
   | modeUpd _ _ _ _ ih => exact ih
   | assertMd _ _ _ _ _ ih => exact ih
   | modeGuard _ _ _ _ _ ih => exact ih
+  | modeTest _ _ _ _ _ ih => exact ih
   | havoc _ _ _ _ _ ih1 ih2 => exact subMask_trans ih1 ih2
   | call _ _ _ _ _ _ _ ih1 ih2 => exact subMask_trans ih1 ih2
   | idone F => exact subMask_refl F
@@ -623,6 +639,7 @@ theorem ex_entries_mono {G : Graph} {es : List Nat} (hsub : ∀ f ∈ es, f ∈ 
   | modeUpd hlt hop hs _ ih => exact .modeUpd hlt hop hs ih
   | assertMd hlt hop hp hs _ ih => exact .assertMd hlt hop hp hs ih
   | modeGuard hlt hop hg hs _ ih => exact .modeGuard hlt hop hg hs ih
+  | modeTest hlt hop hg hs _ ih => exact .modeTest hlt hop hg hs ih
   | havoc hlt hop _ hs _ ih1 ih2 => exact .havoc hlt hop ih1 hs ih2
   | call hlt hop _ hrlt hret hs _ ih1 ih2 => exact .call hlt hop ih1 hrlt hret hs ih2
   | idone F => exact .idone F
@@ -654,6 +671,29 @@ theorem checker_sound_entry_addr (need : String → String → Nat → List Nat)
     (R : Nat) (hR : R ∈ need fn nm md) (hdis : subMask R F0 = true) :
     ¬ Ob (G.withEntries (addrEntries ids taken)) true 0 F0 0 c F md :=
   fun hobs => checker_sound_entry need G C h F0 c F md fn nm hlt hc R hR hdis (ob_entries_mono (addrEntries_sub hcov) hobs)
+
+/-! ### the property end to end: flag-word system (threads) + program graph -/
+
+/-- ★ Same thread, later: once a requirement group `R` of the OS-level call `c` is disabled in thread `tid`, then after ANY
+    sequence of operations of any threads (further `sandbox` calls, thread starts, anything else) an interpreter run of that
+    thread never reaches `c`. -/
+theorem stays_enforced (need : String → String → Nat → List Nat) (G : Graph) (C : Cert) (h : certOK need G C = true)
+    (s : Sys) (tid fl : Nat) (hs : s[tid]? = some fl) (ops : List SysOp)
+    (c F md : Nat) (fn nm : String) (hlt : c < G.size) (hc : (G.node c).op = .libc fn nm)
+    (R : Nat) (hR : R ∈ need fn nm md) (hdis : subMask R fl = true) :
+    ∃ fl', (s.run ops)[tid]? = some fl' ∧ ¬ Ob G true 0 fl' 0 c F md := by
+  obtain ⟨fl', h1, hm⟩ := flags_monotone ops s tid fl hs
+  exact ⟨fl', h1, checker_sound_entry need G C h fl' c F md fn nm hlt hc R hR (subMask_trans hdis hm)⟩
+
+/-- ★ A thread started later: if `R` is disabled in thread `tid` when it starts a thread, then whatever any thread does
+    afterwards, an interpreter run of the NEW thread never reaches `c`. -/
+theorem thread_enforced (need : String → String → Nat → List Nat) (G : Graph) (C : Cert) (h : certOK need G C = true)
+    (s : Sys) (tid fl : Nat) (hs : s[tid]? = some fl) (ops : List SysOp)
+    (c F md : Nat) (fn nm : String) (hlt : c < G.size) (hc : (G.node c).op = .libc fn nm)
+    (R : Nat) (hR : R ∈ need fn nm md) (hdis : subMask R fl = true) :
+    ∃ fl', ((s.step (.spawn tid)).run ops)[s.length]? = some fl' ∧ ¬ Ob G true 0 fl' 0 c F md := by
+  obtain ⟨fl', h1, hm⟩ := thread_keeps_parent_flags s tid fl hs ops
+  exact ⟨fl', h1, checker_sound_entry need G C h fl' c F md fn nm hlt hc R hR (subMask_trans hdis hm)⟩
 
 /-! ### the `mayGrow` summary -/
 
@@ -725,6 +765,36 @@ example : certOK need (exH 1) ⟨fun n => #[[(0, [])], [(0, [8])], [(0, [8])], [
     fun f => #[[], [8]].getD f [], fun _ => true⟩ = true := by decide
 example : certOK need (exH 0) ⟨fun n => #[[(0, [])], [(0, [4])], [(0, [4])], [(0, [])], [(0, [])], [], [(0, [])], [(0, [])], [(0, [4])]].getD n [],
     fun f => #[[], [4]].getD f [], fun _ => true⟩ = false := by decide
+/-- guard variables (`modeTest`): `rd = 0; wr = 0; loop { 'r': rd = 1; assert READ | 'w': wr = 1; assert WRITE };
+    if (rd && !wr) open(O_RDONLY) else { assert READ|WRITE; open(O_RDWR) }` - the read-only open has no assert of its own on
+    that branch, the per-character assert protects it: accepted with the guards.  Field of `rd`: bits 48..55, of `wr`: 56..63. -/
+def exT (guarded : Bool) : Graph := ⟨12, fun n => #[
+      ⟨0, .nop, [1, 3, 5]⟩,                                                    -- loop head: 'r' | 'w' | done
+      ⟨0, .modeUpd (1208925819614629174706175 - 255 <<< 48) (1 <<< 48), [2]⟩, ⟨0, .assert 64, [0]⟩,
+      ⟨0, .modeUpd (1208925819614629174706175 - 255 <<< 56) (1 <<< 56), [4]⟩, ⟨0, .assert 32, [0]⟩,
+      ⟨0, .nop, if guarded then [6, 7] else [8, 9]⟩,                           -- if (rd …
+      ⟨0, .modeTest (255 <<< 48) 0 false, [10]⟩,                               --   rd != 0  → && !wr
+      ⟨0, .modeTest (255 <<< 48) 0 true, [9]⟩,                                 --   rd == 0  → else
+      ⟨0, .libc "os_open" "open64", [11]⟩,                                     -- open(O_RDONLY): mode bits 0
+      ⟨0, .assert 96, [11]⟩,                                                   -- else: assert READ|WRITE (then open O_RDWR, elided)
+      ⟨0, .modeTest (255 <<< 56) 0 true, [8]⟩,                                 --   wr == 0 → then-branch
+      ⟨0, .ret, []⟩].getD n ⟨0, .nop, []⟩, fun _ => 0, [0]⟩
+/-- certificates computed by tools/gen/sandbox.py `certify` on these two graphs -/
+def exTK (guarded : Bool) : Nat → List Case := fun n =>
+  let r := 1 <<< 48; let w := 1 <<< 56
+  let all : List Case := [(0, []), (r, [64]), (w, [32]), (r + w, [32, 64])]
+  if guarded then
+    #[all, all, [(r, []), (r + w, [32])], all, [(w, []), (r + w, [64])], all, all, all,
+      [(r, [64])], [(0, []), (w, [32])], [(r, [64]), (r + w, [32, 64])], [(0, [32, 64]), (r, [64]), (w, [32, 64])]].getD n []
+  else
+    #[all, all, [(r, []), (r + w, [32])], all, [(w, []), (r + w, [64])], all, [], [], all, all, [], all].getD n []
+example : certOK need (exT true) ⟨exTK true, fun _ => [64], fun _ => true⟩ = true := by decide
+/-- … and without the guards (every path possible) the open is reachable with `rd = 0`, where nothing is known: rejected -/
+example : certOK need (exT false) ⟨exTK false, fun _ => [], fun _ => true⟩ = false := by decide
+/-- the end-to-end statements are not vacuous: thread 0 has fs-write disabled, starts a thread, which then also disables
+    fs-read; `remove` (node 3 of `exG`) is never reached in the new thread -/
+example (F : Nat) : ∃ fl', ((Sys.run (Sys.step [32] (.spawn 0)) [.sandbox 1 64])[1]? = some fl') ∧ ¬ Ob exG true 0 fl' 0 3 F 0 :=
+  thread_enforced need exG exC (by decide) [32] 0 32 rfl [.sandbox 1 64] 3 F 0 "f1" "remove" (by decide) rfl 32 (by decide) (by decide)
 example : sandboxOp 0 96 = some 96 ∧ sandboxOp 1 96 = none := by decide
 example : sandboxCfun keywordTable 64 ["fs-write", "net"] = some (64 + 32 + 12) ∧ sandboxCfun keywordTable 0 ["fs", "bogus"] = none ∧
     sandboxCfun keywordTable 1 ["fs"] = none := by decide
